@@ -43,6 +43,7 @@ def r03_1_2(ctx, run, rule1='R03.1', rule2='R03.2'):
     loc = f'{b.file}:{b.line}'
     flush_problems = []
     string_problems = []
+    string_unknown = []
     esc_paths = {}
     for h in sorted(loops):
         for p in ex.explore(start=h, stop=set(loops)):
@@ -57,8 +58,17 @@ def r03_1_2(ctx, run, rule1='R03.1', rule2='R03.2'):
                 continue
             ps = pushed(p)
             # the pending-run flush: push_str(from_utf8_lossy(value[last_start..i]))
-            flushes = [x for x in ps if x[0] == 'str' and any((is_call(s, 'String::from_utf8_lossy', 'str::from_utf8', 'from_utf8_unchecked')) or
-                                                             (is_call(s, 'Index::index') and len(s[2]) == 2 and deref_all(s[2][1])[0] == 'agg') for s in subterms(x[1]))]
+            # the pending-run flush pushes text made from a sub-slice of the *input* (parameter 1)
+            from pat import access_path
+
+            def from_input(t_):
+                for s_ in subterms(t_):
+                    if is_call(s_, 'Index::index') and len(s_[2]) == 2 and deref_all(s_[2][1])[0] == 'agg':
+                        r_, st_ = access_path(s_[2][0])
+                        if r_[0] == 'init' and r_[1] == 1:
+                            return True
+                return False
+            flushes = [x for x in ps if x[0] == 'str' and from_input(x[1])]
             escapes = [x for x in ps if x not in flushes]
             if not escapes:
                 plain = plain.union(rng)
@@ -77,6 +87,28 @@ def r03_1_2(ctx, run, rule1='R03.1', rule2='R03.2'):
                         ok = s == SHORT.get(v) or s.lower() == '\\u%04x' % v
                     if not ok:
                         string_problems.append(f'bytes {rng} are written as the constant {s!r}')
+                elif any(x[0] == 'agg' and x[1] == 'array' and len(x[2]) == 6 for x in subterms(t)):
+                    # escape assembled in a 6-byte array: ['\\', 'u', '0', '0', HEX[b >> 4], HEX[b & 15]]
+                    arr = [x for x in subterms(t) if x[0] == 'agg' and x[1] == 'array' and len(x[2]) == 6][0][2]
+                    head = [const_of(x) for x in arr[:4]]
+                    def hexdigit(x, hi):
+                        x = deref_all(x)
+                        if x[0] != 'index':
+                            return False
+                        tab = deref_all(x[1])
+                        tv = const_of(tab)
+                        if not (isinstance(tv, tuple) and bytes(tv).lower() == b'0123456789abcdef'):
+                            return False
+                        ix = strip_casts(x[2])
+                        if hi:
+                            return ix[0] == 'bin' and ix[1] == 'Shr' and const_of(ix[3]) == 4 and strip_casts(deref_all(ix[2])) == strip_casts(atom)
+                        return ix[0] == 'bin' and ix[1] == 'BitAnd' and const_of(ix[3]) == 15 and strip_casts(deref_all(ix[2])) == strip_casts(atom)
+                    if head == [0x5C, ord('u'), ord('0'), ord('0')] and hexdigit(arr[4], True) and hexdigit(arr[5], False):
+                        pass
+                    elif head == [0x5C, ord('u'), ord('0'), ord('0')] and rng.hi() <= 0xFF:
+                        string_unknown.append(f'bytes {rng}: the hex digits of the \\u00XX escape are computed in a way this rule does not read')
+                    else:
+                        string_problems.append(f'bytes {rng} are written as a 6-byte escape starting {head}, not `\\u00`')
                 else:
                     # formatted escape: must be built from a template containing `\u` and the byte itself in hex
                     tmpl = [x for x in subterms(t) if x[0] == 'const' and (isinstance(x[1], tuple) or isinstance(x[1], str))]
@@ -112,6 +144,8 @@ def r03_1_2(ctx, run, rule1='R03.1', rule2='R03.2'):
         run.violation(rule1, b.path, 'coverage', f'bytes {missing if not missing.empty() else MANDATORY} are copied to the output unescaped: RFC 8259 §7 requires them to be escaped, a strict parser rejects the text', loc)
     if string_problems:
         run.violation(rule2, b.path, 'escape-strings', '; '.join(sorted(set(string_problems))[:3]), loc)
+    elif string_unknown:
+        run.undecided(rule2, b.path, 'escape-strings', '; '.join(sorted(set(string_unknown))[:3]), loc)
     else:
         run.proved(rule2, b.path, 'escape-strings', f'{arms} escape path(s): each short escape denotes its byte, the generic arm writes \\u + the byte in hex', loc)
     if flush_problems:
